@@ -20,18 +20,19 @@ func init() {
 	Register(&PropDef{
 		ID:    "C11",
 		Title: "Each received message is processed once; handlers may call back",
-		Rule: "a scripted peer sends up to 12 requests to one real connection (UDP, DTLS shim, TCP, TLS shim; receive queue 0/1/16) whose handlers return at once or perform a nested blocking operation on the same connection (request, observe registration, observation cancel, ping, confirmable one-way write), to nesting depth 1-3; the peer answers nested operations when the tape says so; duplicates of a request that is still inside its handler (datagram), park points inside the reader-loop replacement protocol, connection close at any point; in S-ORDER the reader loop is first replaced 0-2 times by requests of application goroutines while a non-blocking handler is about to run, then a burst of 2-4 messages arrives while the reader is parked between queue and handler; " +
+		Rule: "S-NEST/server-depth: on a connection of a real udp server that was given WithLimitClientParallelRequest / WithLimitClientEndpointParallelRequest (0, 2 or 4) the peer asks /d3, the handler asks the peer /d2, the peer asks /d1 before it answers, that handler asks /d0 - two requests of the server outstanding on one connection, everything answered at once; otherwise: a scripted peer sends up to 12 requests to one real connection (UDP, DTLS shim, TCP, TLS shim; receive queue 0/1/16) whose handlers return at once or perform a nested blocking operation on the same connection (request, observe registration, observation cancel, ping, confirmable one-way write), to nesting depth 1-3; the peer answers nested operations when the tape says so; duplicates of a request that is still inside its handler (datagram), park points inside the reader-loop replacement protocol, connection close at any point; in S-ORDER the reader loop is first replaced 0-2 times by requests of application goroutines while a non-blocking handler is about to run, then a burst of 2-4 messages arrives while the reader is parked between queue and handler; " +
 			"non-trivial = at least one handler blocked in a nested operation while another message arrived; distinct = distinct event-log hash",
 		Scenarios: []Scenario{{Name: "S-NEST", Weight: 3, Run: c11Run}, {Name: "S-ORDER/after-loop-replacement", Weight: 1, Run: c11OrderRun},
 			{Name: "S-SERVER/shared-socket-reader", Weight: 1, Run: c11ServerRun},
 			{Name: "S-NEST/request-limiter", Weight: 1, Run: c11LimitedRun},
 			{Name: "S-NEST/pong-callback", Weight: 1, Run: c11PongCallbackRun},
+			{Name: "S-NEST/server-depth", Weight: 1, Run: c11ServerDepthRun},
 			// the framing workload of C07 on a server-side stream connection with a busy handler or an application request
 			// monitor: what was accepted (not filtered) is dispatched once, in order, also when several frames share a read
 			{Name: "S-STREAM/accepted-frames", Weight: 1, Run: func(e *Env) { e.RuleRename = [2]string{"C07.", "C11.S"}; c07Run(e, false) }}},
 		Quick:    200000,
 		Thorough: 3000000,
-		Require:  []string{"nested.nonConfirmableRequest", "mid.peerRequestEqualsOwnOutstanding", "arrival.whileHandlerBlocked", "order.loopReplacedBefore", "readerLoop.replacedWhileInHandler", "monitor.dropsMessage", "server.connectionClosedWhileHandOffWaits", "nested.waitsForRequestSlot", "nested.requestFromPongCallback"},
+		Require:  []string{"nested.nonConfirmableRequest", "mid.peerRequestEqualsOwnOutstanding", "arrival.whileHandlerBlocked", "order.loopReplacedBefore", "readerLoop.replacedWhileInHandler", "monitor.dropsMessage", "server.connectionClosedWhileHandOffWaits", "nested.waitsForRequestSlot", "nested.requestFromPongCallback", "server.nestingDepthTwo"},
 		Assume: []string{
 			"'processing continues while it waits' is judged as: a nested operation has returned at the quiescent point after its answer was handed to the connection (parked goroutines released first)",
 			"completeness (every accepted message dispatched) is only demanded of runs in which the connection stays open; order only of runs in which no handler blocked",
